@@ -30,12 +30,82 @@ def maybe_history(rng, spec, prob=0.3, reload_prob=0.15):
     return spec
 
 
+def maybe_org_edit(rng, spec, prob=0.3):
+    """Extend a two-call history (state reset) by an edit of the organisation through the public API between the calls:
+    a team gets one more targeted task, or a worker is moved to another team.  spec["model"] is the model *after*
+    the edit (what the observed call runs on); the first call runs on the model before the edit."""
+    h = spec.get("history")
+    if h is None or not h["state"] or rng.random() >= prob:
+        return spec
+    m = spec["model"]
+    ops = []
+    teams = m["teams"]
+    for _ in range(rng.randint(1, 2)):
+        if rng.random() < 0.5:
+            cands = [(ti, k) for ti, tm in enumerate(teams) for k in tm["targets"] if k not in (tm.get("ctor_targets") or [])
+                     and not any(o[0] == "add_target" and o[1] == ti and o[2] == k for o in ops)]
+            if cands:
+                ti, k = rng.choice(cands)
+                ops.append(["add_target", ti, k])
+        elif len(teams) >= 2 and not any(o[0] == "move_worker" for o in ops):
+            cands = [(tb, w["id"]) for tb, tm in enumerate(teams) for w in tm["workers"]]
+            if cands:
+                tb, wid = rng.choice(cands)
+                ta = rng.choice([i for i in range(len(teams)) if i != tb])
+                w = next(w for w in teams[tb]["workers"] if w["id"] == wid)
+                teams[tb]["workers"].remove(w)
+                teams[tb]["workers"].append(w)  # add_worker() appends: the moved worker is the last one of the new team
+                ops.append(["move_worker", wid, ta, tb])
+    if ops:
+        h["org_edit"] = ops
+        if h.get("k") is None:
+            h["k"] = rng.randint(0, 12)  # the model before the edit may be unservable: its run is cut off, not run to the limit
+    return spec
+
+
+def pre_edit_model(model, ops):
+    import copy
+    m = copy.deepcopy(model)
+    for op in reversed(ops):
+        if op[0] == "add_target":
+            m["teams"][op[1]]["targets"].remove(op[2])
+        elif op[0] == "move_worker":
+            _, wid, ta, tb = op
+            w = next(w for w in m["teams"][tb]["workers"] if w["id"] == wid)
+            m["teams"][tb]["workers"].remove(w)
+            m["teams"][ta]["workers"].append(w)
+    return m
+
+
+def apply_org_edit(p, model, ops):
+    """The edit on the live objects, through the public API (objects looked up by ID: the project may have been reloaded)."""
+    team = {t.ID: t for t in p.organization.team_list}
+    task = {t.ID: t for t in p.workflow.task_list}
+    for op in ops:
+        if op[0] == "add_target":
+            team[model["teams"][op[1]]["id"]].append_targeted_task(task[model["tasks"][op[2]]["id"]])
+        elif op[0] == "move_worker":
+            _, wid, ta, tb = op
+            old, new = team[model["teams"][ta]["id"]], team[model["teams"][tb]["id"]]
+            w = next(w for w in old.worker_list if w.ID == wid)
+            old.worker_list.remove(w)
+            new.add_worker(w)
+
+
 def history_candidates(spec):
     h = spec.get("history")
     if h is not None:
         c = dict(spec)
         c.pop("history")
         yield c
+        if h.get("org_edit"):
+            for i in range(len(h["org_edit"])):
+                # drop one edit op: the model the first call runs on gets closer to the final one
+                c = dict(spec)
+                c["history"] = dict(h, org_edit=h["org_edit"][:i] + h["org_edit"][i + 1:])
+                if not c["history"]["org_edit"]:
+                    c["history"].pop("org_edit")
+                yield c
         if h.get("reload"):
             c = dict(spec)
             c["history"] = dict(h, reload=False)
@@ -60,7 +130,8 @@ def run_forward(spec, **kw):
     from .. import seams
     tr = scen.Trace()
     tr.model, tr.cfg = spec["model"], spec["cfg"]
-    tr.built = B.build(spec["model"], spec.get("ranks"))
+    ops = hist.get("org_edit")
+    tr.built = B.build(pre_edit_model(spec["model"], ops) if ops else spec["model"], spec.get("ranks"))
     p = tr.project = tr.built.project
     tr.absence = set(spec["cfg"].get("absence", []))
     tr.history = hist
@@ -76,6 +147,8 @@ def run_forward(spec, **kw):
             if orr.ok:
                 seams.attach(p)
                 seams.rerank(p, spec.get("ranks") or {})
+    if ops:
+        apply_org_edit(p, spec["model"], ops)
     tr.first_snap = D.snapshot(D.index(p))  # the state the first call (and the optional reload) left
     tr.log_offset = len(p.cost_list) if not hist["log"] else 0
     cfg2 = dict(spec["cfg"])
@@ -128,6 +201,8 @@ def base_result(tr):
         h = tr.history
         res.count("history_runs")
         res.count("history.state%d_log%d%s" % (int(h["state"]), int(h["log"]), ".reload" if h.get("reload") else ""))
+        if h.get("org_edit"):
+            res.count("history.organisation_edited_between_calls")
     res.count("steps", tr.rec.n_recorded)
     if not tr.out.ok:
         res.count("sut_exception")
